@@ -454,6 +454,7 @@ def build_node(spec, h, funcs=None):
                 kw["error_handling"] = spec["map_err"]
             if "clone" in spec:
                 kw["clone"] = spec["clone"]
+            touch(n)
             n = n.map_over(*spec["map_over"], **kw)
     else:
         fkey = spec.get("func_key")
@@ -540,12 +541,14 @@ def build_node(spec, h, funcs=None):
             touch(n)  # the node is USED between renames (fills any cached lookup tables)
             n = n.with_inputs(dict(m))
     elif spec.get("rename_in"):
+        touch(n)  # every derivation in a generated program is a derivation from a USED node
         n = n.with_inputs(dict(spec["rename_in"]))
     if spec.get("rename_out_chain"):
         for m in spec["rename_out_chain"]:
             touch(n)
             n = n.with_outputs(dict(m))
     elif spec.get("rename_out"):
+        touch(n)
         n = n.with_outputs(dict(spec["rename_out"]))
     return n
 
